@@ -15,7 +15,8 @@ SHARDS = {"quick": 10, "thorough": 20}
 TIMEOUT = {"quick": 240, "thorough": 1800}
 RULE = ("calls = generated method names (identifiers, flat dotted registrations, dotted paths through a registered "
         "instance with nested attributes, arbitrary Unicode names through getattr) x positional or keyword style x "
-        "plain call / chained dotted call / MultiCall at every batch position mixed with notifications, with generated "
+        "plain call / chained dotted call / MultiCall at every batch position mixed with notifications (MultiCall objects "
+        "reused across batches, including notification-only batches), with generated "
         "JSON arguments and an independently planned return value (falsy values over-weighted), in every cell of "
         "version {1.0,2.0} x {bare dispatcher + loopback, Simple x {TCP,Unix}, Pooled x {TCP,Unix}} x class translation "
         "{on,off} (20 cells, all instantiated in every run). Oracles: probe log shows exactly one invocation with the "
@@ -221,14 +222,19 @@ def multicall(ctx, c, rng):
     n = rng.randint(1, 6)
     jobs = []
     names = [nm for nm in FLAT_NAMES + INSTANCE_NAMES if nm.split(".")[0] not in MC_EXCLUDED]
+    all_notify = rng.random() < 0.15
     for _ in range(n):
         args, kwargs = gen_args(rng)
-        jobs.append({"name": rng.choice(names), "args": args, "kwargs": kwargs, "notify": rng.random() < 0.3,
+        jobs.append({"name": rng.choice(names), "args": args, "kwargs": kwargs,
+                     "notify": all_notify or rng.random() < 0.3,
                      "planned": gen_planned(rng), "style": rng.choice(["getattr", "chain"])})
     if not all(json_ok(j["args"], j["kwargs"], j["planned"]) for j in jobs):
         return
     fx = c.fx
-    mc = jsonrpclib.MultiCall(c.proxy, config=c.proxy._config)
+    # the same MultiCall object is reused for consecutive batches (a batch must leave nothing behind for the next one)
+    if getattr(c, "mc", None) is None or rng.random() < 0.3:
+        c.mc = jsonrpclib.MultiCall(c.proxy, config=c.proxy._config)
+    mc = c.mc
     c.planned.clear()
     for j in jobs:
         target = mc._notify if j["notify"] else mc
